@@ -398,3 +398,286 @@ pub fn fit_universe() -> Vec<Case> {
     }
     v
 }
+
+// ================================================================================================
+// The "near-miss" family: for every opt-in rewrite, inputs that LOOK like the thing the option rewrites but
+// differ from it by one token that has to be kept (`x: x::<T>` next to `x: x`, `try!(a, b)` next to `try!(a)`,
+// `((a,))` next to `((a))`, `0xABCDEFu32`, `1.0..2.0`, `#[derive(A)] #[cfg(x)] #[derive(B)]` …), in plain code,
+// inside a `macro_rules!` body and inside macro call arguments, under every value of every such option.
+// Small (the rewrites do not depend on the layout), so quick runs ALL of it.
+// ================================================================================================
+
+/// statement lists (placed in a fn body).  A name that starts with `e15-` is formatted under edition 2015.
+pub const NM_STMT_SHAPES: &[(&str, &str)] = &[
+    // use_field_init_shorthand
+    ("fis-plain", "let s = S { a: a, b: b, c };"),
+    ("fis-generic", "let s = S { x: x::<T>, a: a, y: y::<'static, u8>, z: z::<{ 1 }> };"),
+    ("fis-raw", "let s = S { y: r#y, r#z: z, r#h: r#h, a: a };"),
+    ("fis-paren-path", "let s = S { w: (w), v: v.0, t: self::t, u: ::u, q: <q>::q, k: crate::k, a: a };"),
+    ("fis-attr", "let s = S { #[a] u: u, #[cfg(x)] q: q, a: a };"),
+    ("fis-exprs", "let s = S { p: p?, o: o!(), n: &n, m: *m, l: l as u8, k: k(), j: j.j, 0: 0, i: -i, h: !h, g: g.await, e: e[0], d: { d }, c: c.c(), b: move || b, a: a };"),
+    ("fis-nested", "let s = S { x: T { x: x }, y: [y], z: (z,), w: { w }, v: f(v), u: U { u }, a: a };"),
+    ("fis-pat", "let S { x: x, y: ref y, z: mut z, w: w @ _, r#v: v, u: r#u, t: t, .. } = s; match s { S { a: a, b: _ } => {} S { a: A, b: b } => {} }"),
+    ("fis-update", "let s = S { a: a, ..a }; let t = S { b: b, ..Default::default() }; let u = S::<T> { c: c }; let v = <S as T>::U { d: d };"),
+    // use_try_shorthand
+    ("e15-try-plain", "let a = try!(b); let c = try!(d.e(f)); let g = try!(try!(h));"),
+    ("e15-try-two-args", "let a = try!(b, c);"),
+    ("e15-try-near", "let a = try!(b?); let c = r#try!(d); let e = try![f]; let g = try! { h }; let i = try!(); let j = my::try!(k); let l = try!(m).n; let o = try!(p)?; let q = trying!(r); let s = try_!(t); let u = try!(v,);"),
+    ("e15-try-exprs", "let a = try!(b + c); let d = try!(-e); let f = try!(g as u8); let h = try!(|| i); let j = try!(k..l); let m = try!(&n); let o = try!(p = q); let r = try!(if s { t } else { u }); let v = try!(w?.x);"),
+    // condense_wildcard_suffixes
+    ("wild", "match x { Foo(_, _, x @ _) => 1, Foo(a, _, _) => 2, Foo(_, _) => 3, [_, _, .., _] => 4, (_, _, ..) => 5, Foo(_, _, ..) | Bar(.., _, _) => 6, Foo(_, ref _a, _) => 7, (_, _,) => 8, S { a: _, b: _ } => 9, Foo(_) => 10, Foo(a, _) => 11, Foo(_, _, _x) => 12, Foo(_, (_, _), _) => 13, (a, _, _, _) => 14, Foo(_, _, &_) => 15, Foo(_, _, _ | _) => 16, [_, _, _] => 17, Foo(_, _, mac!()) => 18, Foo(_, __, _) => 19, _ => 20 }"),
+    ("wild-let", "let (a, _, _) = t; let Foo(_, _, _) = u; let (_, _): (u8, u8) = v; let f = |(a, _, _): T, _: u8, _| a; if let Some((_, _, _)) = w {} for (_, _, _) in z {}"),
+    // remove_nested_parens
+    ("parens", "let b = ((a,)); let c = (a..); let d = ((a, b)); let e = (((a))); let f = ((a)..(b)); let g = (()); let h = f((a)); let i = ((a))(b); let j = (&(a)).b; let k = -(-(a)); let l = ((a) as u8); let m = ({ a }); let n = ((|| a))(); let o = ((a + b)) * c; let p = f(((a, b))); let q = ((a)?); let r = (((a.b))).c; let s = [((a))]; let t = (((), ())); let u = ((a)) = b;"),
+    ("parens-attr", "let a = (#[attr] (a + b));"),
+    ("parens-pat-ty", "let ((a)) = b; let c: ((u8)) = d; let (((e, f))) = g; let h: ((u8, u8)) = i; let j: (((u8),)) = k; fn l(((m)): ((u8))) {} let n: &((dyn T + Send)) = o; let p: *const ((u8)) = q; match r { ((A)) | ((B)) => {} ((C | D)) => {} }"),
+    // hex_literal_case
+    ("hex", "let a = 0xAB_u8; let b = 0xABCDEFu32; let c = 0xabcdef; let d = 0xAbCd_EfF_i64; let e = 0xFFusize; let f = 0xe; let g = 0x1f32; let h = 0b1010_u8; let i = 0o777; let k = 0xE+1; let l = 0xEi8; let m = 0xdead_beef_u64; let n = 0xBADF00D; let o = 0xa_b_c_d; let p = 0xfe; let q = 0xFEu8 as char; let r = x.0xa; let s = 0xcafeisize; let t = 0xC0FFEE_f;"),
+    ("hex-contexts", "const A: [u8; 0xAb] = [0xcD; 0xAb]; match x { 0xaB..=0xCd => {} 0xEf | 0xfF => {} _ => {} } let y = m!(0xAb, 0xcD); let z = \"0xAb\"; let w = '\\x4a'; let v = b\"\\xAb\"; let u = \"\\u{1F60a}\";"),
+    // float_literal_trailing_zero
+    ("float", "let a = 1.0; let e = 1.; let g = 1.0f32; let h = 1f32; let i = 1e10; let j = 1.0e10; let k = 1_000.000_0; let l = 0.0; let m = 1.50; let n = x.0.0; let q = 1.0 as u8; let r = -1.0; let s = [1.0; 2]; let t = (1.0,); let w = 1.0_f64.sqrt(); let x2 = 1.0E-5; let y = 1_f64; let z = 2.0e+3_f32; let aa = 0.; let ab = 00.00; let ac = 1.0_; let ad = 1.e0;"),
+    ("float-ranges", "let a = 1.0..2.0; let c = 1.0..=2.0; let u = 1.0..; let v = ..2.0; let w = ..=2.0; let x = 1.0 ..2.0; let y = (1.0)..(2.0); let z = 1. ..2.; for i in 0.0..1.0 {}"),
+    ("float-range-ref", "let b = &1.0..2.0;"),
+    ("float-range-pat", "match x { 1.0..=2.0 => {} _ => {} }"),
+    ("float-range-pat2", "match x { 1.0.. => {} ..=2.0 => {} 1.0 => {} -1.0..=-0.0 => {} _ => {} } if let 1.0..=2.0 = y {}"),
+    ("float-method", "let d = 1.0.method(); let e = 2.0.max(1.0); let f = 1.0 .method(); let g = (1.0).method(); let h = 1.0.0; let i = 1.0f32.method(); let j = 1.0e5.method(); let k = -1.0.abs(); let l = 1.0.x; let m = 1.0?; let n = 1.0[0]; let o = 1.0.await;"),
+    // leading pipes / match_block_trailing_comma / match_arm_blocks
+    ("pipes", "match x { | A | B if c => 1, | A => 2, A | B => 3, | (A | B) => 4, | [A] | [B] if d => 5, | _ if e => 6, _ => 7 } let (| A | B) = y; if let | A | B = w {} while let | Some(A) | None = v {} let f = |x| x; let g = || |y| y; matches!(u, | A | B); fn h((| A | B): E) {}"),
+    ("arm-blocks", "match x { A => { a() } B => { b() }, C => c, D => { d }, E => unsafe { e }, F => if g { 1 } else { 2 }, G => match h { _ => {} } H => loop {}, I => {} J => {}, K => { k; } L => { l; }, M => async { m }, N => const { n }, O => 'a: { o }, P => { #[p] q } Q => { { r } } R => {{ s }}, S => ({ t }), T => { u }.v(), _ => { return } }"),
+    // trailing_semicolon and statement blocks
+    ("jumps-semis", "fn a() { return; } fn b() { return } fn c() { loop { break } } fn d() { loop { continue } } fn e() { loop { break; } } fn f() -> u8 { return 1 } fn g() { if x { return } else { return; } } fn h() { match x { _ => return } } fn i() { let c = || return; } fn j() { { x }; { y } ; z; } fn k() { loop { break 'a 1 } } fn l() { return return; } fn m() { { return }; } fn n() { x; ; y;; }"),
+    ("block-semis", "{ x }; { y } z; if a { b }; if a { b } else { c }; match d { _ => {} }; loop {}; while e {}; for f in g {}; unsafe { h }; 'l: { i }; async { j }; const { k }; { l }.m(); { n }?; struct S {}; fn o() {}; mod p {}; m! { q }; m!(r); m![s]; ;"),
+    // overflow_delimited_expr / vec! delimiters / empty lists
+    ("overflow", "f(a, [1, 2, 3]); f(a, S { b: 1 }); f(&[1, 2]); f(vec![1, 2, 3]); f(a, |x| { x }); f(a, (1, 2)); f(a, m! { b }); f(a, &mut [b, c]); f(a, [b; 2]); f(a, ((b))); f([a], [b]); f(a, { b }); f(a, unsafe { b }); f(a, match b { _ => c });"),
+    ("vec-delims", "let a = vec!(1, 2); let b = vec!{3}; let c = vec![]; let d = my::vec!(1); let e = r#vec!(1); let f = vec!(1; 2); let g = vec!(); let h = vec!{}; let i = vec!(vec!(1), vec!{2}); let j = veq!(1); let k = vec!((1, 2)); let l = vec!([1]); let m = vec!({ 1 });"),
+    ("empties", "let b = c::<>(); let d: E<> = f; let g: for<> fn() = h; let l = M::<> {}; let q: &dyn for<> R<> = s; fn a<>() {} fn i<T:>() {} fn j() where {} struct K<> where; impl<> N<> for O<> where {} fn p<'a:, T: 'a +>() {} use t::{}; use u::{v::{}}; fn w<T: ?Sized +>() where T:, {}"),
+    // strings
+    ("strings", "let a = \"a\\\n      b\"; let b = \"x\\n\"; let c = r\"raw \\n\"; let d = b\"bytes\\x00\"; let e = c\"cstr\"; let g = \"tab\\there\"; let h = 'c'; let i = b'\\''; let j = \"\\u{1F600}\"; let k = \"trailing spaces   \"; let l = r#\"ra\"w\"#; let m = br##\"x\"#y\"##; let n = \"\\\\\\n\"; let o = \"a\\\n\\\n   b\"; let p = \"\\x41\\\"\\'\\0\"; let q = '\\u{41}'; let r = \"\";"),
+    ("strings-long", "let f = \"a long string with \\n escapes and words and words and words and words and words and \\t more words \\\\ and a backslash \\\" quote and so on and on\"; let g = \"nospacesnospacesnospacesnospacesnospaces\\nnospacesnospacesnospacesnospacesnospaces\\\\nospacesnospaces\"; let h = \"ends in blanks                                                                      \";"),
+];
+
+/// item lists
+pub const NM_ITEM_SHAPES: &[(&str, &str)] = &[
+    ("doc-attrs", "#[doc = \"x\"]\n/// y\n#[doc = \"z\"]\nfn a() {}\n#[doc(hidden)]\n#[doc = \"x\"]\nfn b() {}\n#[doc = r\"raw\"]\nfn c() {}\n#[doc = \"multi\\nline\"]\nfn d() {}\n#[doc = \"with \\\"quote\\\"\"]\nfn e() {}\n#[doc = include_str!(\"x\")]\nfn f() {}\n#[doc = concat!(\"a\", \"b\")]\nfn g() {}\n#[cfg_attr(x, doc = \"y\")]\nfn h() {}\n#[doc = \"\"]\nfn i() {}\n#[doc = \" */ \"]\nfn j() {}\n#[doc(alias = \"x\")]\nfn l() {}\n#[doc = \"tab\\there\"]\nfn m() {}\n#[doc = \"\\u{41}\"]\nfn n() {}\n"),
+    ("doc-attrs-inner", "#![doc = \"crate\"]\n//! inner\n#![doc = \"more\"]\nmod m {\n    #![doc = \"mod\"]\n}\nstruct S {\n    #[doc = \"field\"]\n    f: u8,\n}\nenum E {\n    #[doc = \"variant\"]\n    V,\n}\n"),
+    ("derives", "#[derive(A)]\n#[cfg(x)]\n#[derive(B)]\nstruct S1;\n#[derive(A)]\n/// doc\n#[derive(B)]\nstruct S2;\n#[derive(A, B,)]\n#[derive()]\n#[derive(C)]\nstruct S3;\n#[derive(a::A)]\n#[derive(B)]\n#[allow(x)]\n#[derive(C)]\nstruct S4;\n#[cfg_attr(x, derive(A))]\n#[derive(B)]\nstruct S5;\n#[derive(A)]\n#[derive(A)]\nstruct S6;\n#[derive(B, A)]\n#[derive(C)]\nenum E1 {}\n#[derive = \"x\"]\n#[derive(A)]\nstruct S7;\n#[derive(A)] // c\n#[derive(B)]\nstruct S8;\n"),
+    ("abi", "extern \"C\" fn a() {}\nextern fn b() {}\nextern \"Rust\" fn c() {}\nextern \"C\" {}\nextern {}\nextern \"system\" {}\ntype F = extern fn();\ntype G = extern \"C\" fn();\ntype H = unsafe extern \"Rust\" fn();\nextern \"c\" fn d() {}\nextern \"C-unwind\" fn e() {}\nunsafe extern \"C\" { fn f(); }\nunsafe extern { fn g(); }\nimpl S { extern fn h() {} pub extern \"C\" fn i() {} }\nextern crate j;\nextern \"C\" { static K: u8; }\n"),
+    ("vis-near", "struct A(pub(crate) T, pub (self::T), pub(in self) T, pub (crate::T), pub(in crate) T, pub(in super) T, pub(in crate::a) T, pub (super::T), pub(self) T, pub (in_crate::T));\npub(in crate) fn b() {}\npub(in self) fn c() {}\npub(in super) fn d() {}\npub(in super::super) fn e() {}\npub(in crate::f) fn f() {}\npub(in self::g) fn g() {}\n"),
+    ("impl-order", "impl S {\n    type A = u8;\n    type B = u8;\n    const C: u8 = 1;\n    const D: u8 = 2;\n    fn e() {}\n    fn f() {}\n}\nimpl T for S {\n    type A = u8;\n    const C: u8 = 1;\n    m!();\n    fn e() {}\n}\ntrait U {\n    type A;\n    const C: u8;\n    fn e();\n}\n"),
+    ("macro-matchers", "macro_rules! m {\n    ($a:expr, $($b:tt)*) => { S { x: x::<T>, y: $a } };\n    ($a:ident) => {{ try!($a) }};\n    (@x $a:pat) => { match y { $a | _ => 1 } };\n    ($($a:ident),* $(,)?) => { ($($a,)*) };\n    ($a:literal) => { [0xAb, 1.0, $a] };\n    ($(#[$a:meta])* $v:vis fn $n:ident()) => { $(#[$a])* $v fn $n() {} };\n    () => {};\n}\nm!(S { x: x::<T> });\nm!((a,), ((b)), 0xAb, 1.0..2.0);\nm! { pub(in crate) fn f() }\n"),
+    ("use-near", "use a::{self};\nuse b::{self as b};\nuse c::{d as d};\nuse e::{};\nuse ::f;\nuse g::{self, self as h};\nuse i::*;\nuse {j, k};\nuse l as _;\nuse m::{n::{self}};\nuse self::o;\nuse r#p::q;\nuse s::r#t;\n"),
+];
+
+pub fn nm_options() -> Vec<Vec<(String, String)>> {
+    let s = |k: &str, v: &str| vec![(k.to_string(), v.to_string())];
+    let mut v = vec![
+        vec![],
+        s("use_field_init_shorthand", "true"),
+        s("use_try_shorthand", "true"),
+        s("condense_wildcard_suffixes", "true"),
+        s("remove_nested_parens", "false"),
+        s("normalize_doc_attributes", "true"),
+        s("merge_derives", "false"),
+        s("force_explicit_abi", "false"),
+        s("hex_literal_case", "Upper"),
+        s("hex_literal_case", "Lower"),
+        s("float_literal_trailing_zero", "Always"),
+        s("float_literal_trailing_zero", "IfNoPostfix"),
+        s("float_literal_trailing_zero", "Never"),
+        s("format_macro_matchers", "true"),
+        s("format_macro_bodies", "false"),
+        s("reorder_impl_items", "true"),
+        s("match_arm_leading_pipes", "Always"),
+        s("match_arm_leading_pipes", "Preserve"),
+        s("match_block_trailing_comma", "true"),
+        s("match_arm_blocks", "false"),
+        s("trailing_semicolon", "false"),
+        s("overflow_delimited_expr", "true"),
+        s("format_strings", "true"),
+        s("trailing_comma", "Never"),
+        s("trailing_comma", "Always"),
+        s("struct_lit_single_line", "false"),
+        s("use_small_heuristics", "Max"),
+        s("imports_granularity", "Crate"),
+        s("reorder_imports", "false"),
+        s("style_edition", "2015"),
+    ];
+    // all opt-in token rewrites at once
+    v.push(vec![
+        ("use_field_init_shorthand".into(), "true".into()),
+        ("use_try_shorthand".into(), "true".into()),
+        ("condense_wildcard_suffixes".into(), "true".into()),
+        ("normalize_doc_attributes".into(), "true".into()),
+        ("hex_literal_case".into(), "Upper".into()),
+        ("float_literal_trailing_zero".into(), "Never".into()),
+        ("format_macro_matchers".into(), "true".into()),
+        ("match_block_trailing_comma".into(), "true".into()),
+        ("overflow_delimited_expr".into(), "true".into()),
+    ]);
+    v.retain(|o| o.iter().all(|(k, val)| rustfmt_nightly::Config::is_valid_key_val(k, val)));
+    v
+}
+
+pub const NM_WIDTHS: &[usize] = &[30, 60, 100];
+
+/// The near-miss universe, in a fixed order.  id = `nm:<shape>:<context>|w<width>|<options or base>`
+pub fn nm_universe() -> Vec<Case> {
+    let opts = nm_options();
+    let mut v = vec![];
+    let mut shapes: Vec<(String, Vec<(&'static str, String)>)> = vec![];
+    for (name, body) in NM_STMT_SHAPES {
+        let is_fn_list = body.starts_with("fn ");
+        let plain = if is_fn_list { format!("{}\n", body) } else { format!("fn f() {{ {} }}\n", body) };
+        let mut ctxs = vec![("plain", plain.clone()), ("in-macro-def", format!("macro_rules! wrap {{\n    () => {{\n{}    }};\n}}\n", plain))];
+        if !is_fn_list {
+            ctxs.push(("in-macro-call", format!("fn f() {{ wrap!({{ {} }}); }}\n", body)));
+            ctxs.push(("in-closure-chain", format!("fn f() {{ a.b(|c| {{ {} }}).d(e, move |g| {{ {} }}); }}\n", body, body)));
+        }
+        shapes.push((name.to_string(), ctxs));
+    }
+    for (name, body) in NM_ITEM_SHAPES {
+        shapes.push((name.to_string(), vec![("plain", body.to_string()), ("in-macro-def", format!("macro_rules! wrap {{\n    () => {{\n{}    }};\n}}\n", body)), ("in-mod", format!("mod outer {{\n{}}}\n", body))]));
+    }
+    for (name, ctxs) in shapes {
+        let edition = if name.starts_with("e15-") { "2015" } else { "2024" };
+        for (cname, text) in ctxs {
+            for w in NM_WIDTHS {
+                for o in &opts {
+                    let mut cfg: Vec<(String, String)> = vec![("edition".into(), edition.into()), ("style_edition".into(), "2024".into()), ("max_width".into(), w.to_string())];
+                    cfg = merge_cfg(&cfg, o);
+                    let oname = if o.is_empty() { "base".to_string() } else { cfg_text(o) };
+                    v.push(Case { id: format!("nm:{}:{}|w{}|{}", name, cname, w, oname), src: text.clone(), cfg });
+                }
+            }
+        }
+    }
+    v
+}
+
+// ================================================================================================
+// The "header" family: positions that rustfmt finds by SEARCHING THE SOURCE TEXT for a character (`{`, `(`,
+// `=`, `:`, `>` … via span_after / span_before / find_uncommented / str::find).  The searched character is put
+// BEFORE the intended one: in a const-generic block argument `{ N }`, an array length `[u8; { 4 + 4 }]`, a
+// string or char literal inside such a block, a comment, an attribute — in every header position (generics
+// and their defaults, supertraits, where clauses, impl headers, return types, type aliases, associated
+// items), with an empty body, a body with items and a body holding only a comment.
+// ================================================================================================
+
+/// `$E` a brace-bearing const argument, `$B` a body for the kind of item (`$BT` trait, `$BI` impl, `$BS` struct, `$BF` fn, `$BN` enum)
+pub const HDR_SHAPES: &[(&str, &str)] = &[
+    ("trait-where", "pub trait W<T, const N: usize> where T: Ch<$E> $BT\n"),
+    ("trait-where2", "trait P where [u8; $E]: Sized, Self: Ch<$E> + Sized $BT\n"),
+    ("trait-super", "trait P<const N: usize>: Ch<$E> + Other $BT\ntrait R: Ch<$E> where Self: Other $BT\n"),
+    ("trait-generics", "trait G<const N: usize = $E, T: Ch<$E> = u8> $BT\nunsafe trait H<T = [u8; $E]> where T: Copy $BT\n"),
+    ("trait-alias", "trait A<const N: usize> = Ch<$E> + Other where [u8; $E]: Sized;\n"),
+    ("impl-trait-for", "impl<T, const N: usize> Tr<$E> for S<T, $E> where T: Ch<$E>, [u8; $E]: Sized $BI\n"),
+    ("impl-inherent", "impl<const N: usize> S<$E> where [u8; $E]: Sized $BI\nimpl S<$E> $BI\nimpl<T: Ch<$E>> S<T> $BI\n"),
+    ("impl-neg-unsafe", "unsafe impl<T> Tr<$E> for [T; $E] where T: Ch<$E> $BI\nimpl<T> !Tr<$E> for S<T> where T: Ch<$E> {}\n"),
+    ("struct-where", "struct S<T> where T: Ch<$E>, [T; $E]: Sized $BS\n"),
+    ("struct-generics", "struct S<const N: usize = $E, T: Ch<$E> = [u8; $E]> $BS\n"),
+    ("struct-tuple", "struct S<T>(T, [u8; $E]) where [T; $E]: Sized;\nstruct U<const N: usize = $E>(Ch<$E>);\nstruct V<T: Ch<$E>>(pub T) where T: Copy;\n"),
+    ("struct-unit", "struct U<const N: usize = $E> where [u8; $E]: Sized;\nstruct X<T: Ch<$E>>;\n"),
+    ("enum-where", "enum E<T> where T: Ch<$E>, [T; $E]: Sized $BN\nenum F<const N: usize = $E> $BN\n"),
+    ("union-where", "union U<T: Copy> where T: Ch<$E>, [T; $E]: Sized $BS\n"),
+    ("fn-sig", "fn f<T, const N: usize>(x: [u8; $E]) -> [u8; $E] where T: Ch<$E>, [T; $E]: Sized $BF\n"),
+    ("fn-sig-ret", "fn g() -> Ch<$E> $BF\nfn h(x: Ch<$E>, y: impl Tr<$E>) -> impl Tr<$E> $BF\nfn i<T: Ch<$E>>() $BF\n"),
+    ("fn-decl", "trait Q { fn m<T>(x: [u8; $E]) -> [u8; $E] where T: Ch<$E>; fn n() where Self: Ch<$E> $BF }\nextern \"C\" { fn e(x: [u8; $E]) -> [u8; $E]; }\n"),
+    ("type-alias", "type A<T> where T: Ch<$E> = [T; $E];\ntype B<T: Ch<$E>> = T;\ntype C<const N: usize = $E> = [u8; $E];\ntype D = Ch<$E>;\n"),
+    ("assoc-items", "trait Q { type X<T>: Ch<$E> where T: Ch<$E>; const C: [u8; $E] = [0; $E]; type Y: Ch<$E> = Z<$E>; }\nimpl Q for S { type X<T> = [T; $E] where T: Ch<$E>; const C: [u8; $E] = [0; $E]; }\n"),
+    ("static-const", "const K: [u8; $E] = [0; $E];\nstatic L: Ch<$E> = Ch::<$E>::new();\nconst M: usize = $E;\n"),
+    ("exprs", "fn f() { let a: [u8; $E] = [0; $E]; let b = g::<$E>(); let c = S::<$E> { x: 1 }; let d = <Ch<$E>>::new(); match e { S::<$E> { .. } => {} } if let Ch::<$E>(x) = y {} for i in z::<$E>() {} while w::<$E>() {} let k = |x: Ch<$E>| -> Ch<$E> { x }; }\n"),
+    ("macro-def-body", "macro_rules! m { () => { trait W where Self: Ch<$E> $BT }; ($a:ty) => { impl Tr<$E> for $a where $a: Ch<$E> $BI }; }\n"),
+];
+
+pub const HDR_E: &[(&str, &str)] = &[
+    ("n", "{ N }"),
+    ("sum", "{ 4 + 4 }"),
+    ("if", "{ if true { 1 } else { 2 } }"),
+    ("str", "{ \"{\".len() }"),
+    ("chr", "{ '{' as usize }"),
+    ("cmt", "{ /* { */ 1 }"),
+    ("nested", "{ { 1 } }"),
+    ("plain", "N"),
+];
+
+/// bodies: (name, trait body, impl body, struct body, fn body, enum body)
+pub const HDR_BODIES: &[(&str, &str, &str, &str, &str, &str)] = &[
+    ("empty", "{}", "{}", "{}", "{}", "{}"),
+    ("items", "{ type Item; fn get(&self, at: usize) -> Option<&Self::Item>; }", "{ type Item = u8; fn get(&self) -> u8 { 1 } }", "{ a: T, b: u8 }", "{ let x = 1; x }", "{ A(T), B }"),
+    ("comment", "{ // only a comment\n}", "{ /* only a comment */ }", "{ // only a comment\n}", "{ // only a comment\n}", "{ /* only a comment */ }"),
+    ("attr", "{ #![allow(x)] fn f(); }", "{ #![allow(x)] fn f() {} }", "{ #[doc = \"{\"] a: T }", "{ #![allow(x)] 1 }", "{ #[doc = \"{\"] A }"),
+];
+
+/// comments, strings and attributes that hold the searched character before the intended position
+pub const HDR_COMMENT_SHAPES: &[(&str, &str)] = &[
+    ("cm-trait", "trait T /* { */ where Self: Sized /* { */ { fn f(); }\ntrait U /* : */ : V /* { */ { fn f(); }\ntrait W<T /* > */> /* { */ {}\n"),
+    ("cm-impl", "impl /* { */ S /* { */ { fn f() {} }\nimpl<T /* > */> Tr /* for */ for S<T> /* { */ where T: X /* { */ { fn f() {} }\n"),
+    ("cm-struct", "struct S /* { */ { a: u8 }\nstruct T /* ( */ (u8);\nstruct U<T /* > */>(T) /* ; */ where T: X /* ; */;\nstruct V /* ; */;\n"),
+    ("cm-enum", "enum E /* { */ { A /* ( */ (u8), B /* { */ { x: u8 }, C /* = */ = 1 }\n"),
+    ("cm-fn", "fn f /* ( */ (x: u8 /* ) */) /* -> */ -> u8 /* { */ { 1 }\nfn g<T /* > */>() /* { */ where T: X /* { */ {}\nfn h(x /* : */ : u8, y: u8 /* , */) {}\n"),
+    ("cm-items", "const C /* : */ : u8 /* = */ = 1;\nstatic S /* : */ : u8 /* = */ = 0;\ntype A /* = */ = u8;\ntype B<T> /* = */ where T: X /* = */ = T;\nmod m /* { */ { fn f() {} }\nextern \"C\" /* { */ { fn f(); }\nuse a /* :: */ ::b;\n"),
+    ("cm-exprs", "fn f() { let x /* = */ = 1; let y /* : */ : u8 /* = */ = 2; match x /* { */ { _ /* => */ => {} } if a /* { */ { } else /* { */ { } while b /* { */ { } for i /* in */ in c /* { */ { } loop /* { */ { } let s = S /* { */ { a /* : */ : 1 }; let c = |x /* | */| /* -> */ x; g /* ( */ (1); h.i /* ( */ (2); }\n"),
+    ("str-attrs", "#[doc = \"{\"]\ntrait T where Self: Sized { fn f(); }\n#[doc = \"(\"]\nstruct S(u8);\n#[cfg(feature = \"{\")]\nimpl S { fn f() {} }\n#[doc = \"=\"]\ntype A = u8;\n#[doc = \";\"]\nstruct U;\n#[doc = \"where {\"]\nfn f<T>() where T: X {}\n"),
+    ("str-headers", "impl Tr<{ \"{\".len() }> for S where S: Ch<{ \"where\".len() }> { fn f() {} }\nfn f(x: [u8; \"(\".len()]) -> [u8; \"{\".len()] { x }\nenum E { A = \"=\".len() as isize, B = '{' as isize }\n"),
+    ("pre-default", "trait T { default fn f(); default type X; default const C: u8; default unsafe fn g(&self); }\nimpl T for S { default fn f(); default type X = u8; default const C: u8 = 1; default fn h() {} }\n"),
+    ("pre-inner-attrs-empty", "impl Foo { #![attr] }\ntrait Bar { #![attr] }\nextern \"C\" { #![attr] }\n"),
+    ("pre-inner-attrs", "impl Foo { #![attr] fn f() {} }\ntrait Bar { #![attr] fn f(); }\nextern \"C\" { #![attr] fn f(); }\nmod m { #![attr] }\nfn f() { #![attr] }\n"),
+    ("pre-vec-brace-stmt", "fn v() { vec!{1, 2} let a = 1; }\n"),
+    ("pre-brace-macro-stmts", "fn w() { vec!{1, 2}; let a = 1; vec!(3); m!{4} let b = 2; n!{} o![5]; }\n"),
+    ("pre-async-use", "fn u() { let c = async use { 1 }; }\n"),
+    ("pre-use-closures", "fn u() { let d = use || 1; let e = async move { 1 }; let g = async { 2 }; let h = move || 3; }\n"),
+    ("pre-postfix-match", "fn m() { x.match { _ => 1 }; let y = z.match { A => 1, B => 2 }.w(); }\n"),
+    ("macro-type", "trait T where m!({}): Sized { fn f(); }\nimpl Tr for m!({ x }) where m![{]: X { fn f() {} }\nfn f() -> m!({ }) { 1 }\nstruct S(m! { a });\ntype A = m!({);\n"),
+];
+
+pub fn hdr_options() -> Vec<Vec<(String, String)>> {
+    let s = |k: &str, v: &str| vec![(k.to_string(), v.to_string())];
+    let mut v = vec![
+        vec![],
+        s("brace_style", "AlwaysNextLine"),
+        s("brace_style", "PreferSameLine"),
+        s("where_single_line", "true"),
+        vec![("brace_style".to_string(), "AlwaysNextLine".to_string()), ("where_single_line".to_string(), "true".to_string())],
+        s("indent_style", "Visual"),
+        s("empty_item_single_line", "false"),
+        s("fn_single_line", "true"),
+        s("style_edition", "2015"),
+        s("normalize_comments", "true"),
+    ];
+    v.retain(|o| o.iter().all(|(k, val)| rustfmt_nightly::Config::is_valid_key_val(k, val)));
+    v
+}
+
+/// The header universe, in a fixed order.  id = `hdr:<shape>:<E>:<body>:<context>|w<width>|<options or base>`
+pub fn hdr_universe() -> Vec<Case> {
+    let opts = hdr_options();
+    let mut texts: Vec<(String, String)> = vec![];
+    for (name, src) in HDR_SHAPES {
+        for (en, e) in HDR_E {
+            for (bn, bt, bi, bs, bf, be) in HDR_BODIES {
+                if !src.contains("$B") && *bn != "empty" {
+                    continue;
+                }
+                let t = src.replace("$E", e).replace("$BT", bt).replace("$BI", bi).replace("$BS", bs).replace("$BF", bf).replace("$BN", be);
+                texts.push((format!("{}:{}:{}", name, en, bn), t));
+            }
+        }
+    }
+    for (name, src) in HDR_COMMENT_SHAPES {
+        texts.push((format!("{}:-:-", name), src.to_string()));
+    }
+    let mut v = vec![];
+    for (name, body) in texts {
+        for (cname, text) in [("plain", body.clone()), ("in-mod", format!("mod outer {{\n{}}}\n", body))] {
+            for w in [40usize, 100] {
+                for o in &opts {
+                    let mut cfg: Vec<(String, String)> = vec![("edition".into(), "2024".into()), ("style_edition".into(), "2024".into()), ("max_width".into(), w.to_string())];
+                    cfg = merge_cfg(&cfg, o);
+                    let oname = if o.is_empty() { "base".to_string() } else { cfg_text(o) };
+                    v.push(Case { id: format!("hdr:{}:{}|w{}|{}", name, cname, w, oname), src: text.clone(), cfg });
+                }
+            }
+        }
+    }
+    v
+}
